@@ -59,6 +59,7 @@ func NewInterp(prog *ssa.Program, ctx *Ctx) *Interp {
 	in.installStubs2()
 	in.installStubs3()
 	in.installStubs4()
+	in.installStubs5()
 	return in
 }
 
@@ -385,6 +386,9 @@ func (in *Interp) ensureInit(p *ssa.Package) {
 			if g.Pkg == p {
 				if _, have := in.globals[g]; !have {
 					in.globals[g] = in.deepCopy(o).(*Obj)
+					if in.MonitorOn && p.Pkg.Path() == "github.com/itchyny/gojq" {
+						in.freeze(in.globals[g], map[any]bool{})
+					}
 				}
 			}
 		}
